@@ -134,6 +134,11 @@ class Zip(object):
                 else:
                     value.append(val)
             if break_while:
+                # finish the other generators: elements may change their
+                # state after the last yield (like reset after request)
+                for res in results:
+                    for _ in res:
+                        pass
                 break
             # combine data and context for output value
             dc = [functions.get_data_context(val) for val in value]
